@@ -16,10 +16,10 @@ CFG = dict(
          "Non-trivial = at least one record was emitted; distinct by input line.",
     nontrivial=["records"],
     jobs=seeds(1, 4),
-    lean_files=["Trig", "Pipe", "PipeJudge", "C02", "C09", "Pipe1", "Pipe2", "Edge", "Level", "Auto", "Passes", "TrigIdx", "EdgeGlobal"],
+    lean_files=["Trig", "Pipe", "PipeJudge", "C02", "C09", "Pipe1", "Pipe2", "Edge", "Level", "Auto", "Passes", "TrigIdx", "EdgeGlobal", "LevelGlobal"],
     trusted_base=_PIPE_TB,
     assumptions=["auto delay enters the model as an integer number of samples computed with the code's own expression",
-                 "level completeness and the auto gap are proved per block and judged across blocks only by the run-time oracle (full statements kept as Props)"],
+                 "the auto gap is proved per block (triggers in range) and judged across blocks only by the run-time oracle (full statement kept as a Prop)"],
     timeout=dict(quick=900, thorough=3600),
 )
 MANIFEST = dict(
@@ -28,8 +28,7 @@ MANIFEST = dict(
          "complete post-trigger is a trigger or lies in the dead time (T,T+nsamp] of an emitted trigger - from the first block after a start with restored settings "
          "and after a ConfigureTriggers request at any point (C02_edge_complete, C02_edge_complete_after_reconfigure; invariant EdgeInv: scan frontier, retained "
          "history >= one record, hold-off hand-over); edge-only triggers are sound and never overlap (C02_edge_only_sound, C02_edge_only_no_overlap); per block: "
-         "edge/level soundness, completeness and separation, auto triggers in range. Level completeness and the auto gap across blocks are stated "
-         "(C02_level_complete_full, C02_auto_gap_full) and decided at run time by the independent-scan oracle on the real records.",
+         "edge/level soundness, completeness and separation, auto triggers in range. ",
     note="Trusted: Lean 4.33 kernel (axioms propext, Classical.choice, Quot.sound only; audited every run); the hand-written model is tied to the Go code only by "
          "differential testing with seeded generators (not a proof). Partial: cross-block theorems cover the edge clauses; level/auto clauses are proved per block "
          "and otherwise checked by the oracle on explored cases. Epochs started by ConfigurePulseLengths are covered by the oracle only. Two defects found by this "
@@ -39,6 +38,7 @@ MANIFEST = dict(
 THEOREMS = [
     ("DastardV.Props.C02", "DastardV.C02.C02_edge_complete"),
     ("DastardV.Props.C02", "DastardV.C02.C02_edge_complete_after_reconfigure"),
+    ("DastardV.Props.C02", "DastardV.C02.C02_level_complete"),
     ("DastardV.Props.C02", "DastardV.C02.C02_edge_only_sound"),
     ("DastardV.Props.C02", "DastardV.C02.C02_edge_only_no_overlap"),
     ("DastardV.Props.C02", "DastardV.C02.C02_block_edge"),
